@@ -108,7 +108,8 @@ func ListDir(dir string) []os.FileInfo {
 // whether it should be zipped(true) or not(false).
 // The recursive param indicates whether sub-folders should be added recursively or not
 func ZipFolder(srcDir, destFile string, testFunc func(string) bool, recursive bool) error {
-	srcDir = ensureDirName(srcDir)
+	// filepath.Walk reports cleaned paths, so the source dir must be cleaned to be comparable with them
+	srcDir = filepath.Clean(srcDir)
 	f, err := os.Create(destFile)
 	if err != nil {
 		return fmt.Errorf("ZipFolder: could not create %s for write, err=%w", destFile, err)
@@ -130,15 +131,17 @@ func ZipFolder(srcDir, destFile string, testFunc func(string) bool, recursive bo
 		}
 
 		if !recursive {
-			dir, _ := filepath.Split(path)
-			dir = ensureDirName(dir)
-			if dir != srcDir {
+			if filepath.Dir(path) != srcDir {
 				// skipping subfolders
 				return nil
 			}
 		}
 
-		dstFileName := path[len(srcDir):]
+		rel, err := filepath.Rel(srcDir, path)
+		if err != nil {
+			return fmt.Errorf("ZipFolder: could not make the name of %s relative to %s, err=%w", path, srcDir, err)
+		}
+		dstFileName := "/" + rel
 		out, err := w.Create(dstFileName)
 		if err != nil {
 			return fmt.Errorf("ZipFolder: could not write %s into %s, err=%w", path, dstFileName, err)
